@@ -1,0 +1,52 @@
+//go:build verif
+
+package invocation
+
+// Contracts for the deductive verifier in /verif (govc). Comment-only file.
+
+//@ pure func invValidAt(t *Token, at time.Time) bool =
+//@     t.expiration == nil || !(inst(at) > inst(*t.expiration))
+//@
+//@ func (*Token).IsValidAt
+//@   requires t != nil
+//@   ensures [C04] spec: result == invValidAt(t, ti)
+//@   ensures [C04] inside: (t.expiration == nil || inst(ti) < inst(*t.expiration)) ==> result
+//@   ensures [C04] outside: (t.expiration != nil && inst(ti) > inst(*t.expiration)) ==> !result
+//@   assigns [C20] nothing
+//@
+//@ pure func timeOK(t *Token, ds []*delegation.Token, at time.Time) bool =
+//@     invValidAt(t, at) && forall i int :: 0 <= i && i < len(ds) ==> dlgValidAt(ds[i], at)
+//@
+//@ func (*Token).verifyTimeBoundAt
+//@   requires t != nil
+//@   requires len(delegations) == len(t.proof)
+//@   requires forall i int :: 0 <= i && i < len(delegations) ==> delegations[i] != nil
+//@   ensures [C04] sound: result == nil ==> timeOK(t, delegations, at)
+//@   ensures [C05] complete: timeOK(t, delegations, at) ==> result == nil
+//@   assigns [C20] nothing
+//@   loop 0: invariant 0 <= k && k <= len(t.proof)
+//@           invariant forall i int :: 0 <= i && i < k ==> dlgValidAt(delegations[i], at)
+//@           decreases len(t.proof) - k
+//@
+//@ pure func linkOK(t *Token, ds []*delegation.Token, i int) bool =
+//@     ds[i].subject == t.subject
+//@  && ds[i].audience == (i == 0 ? t.issuer : ds[i-1].issuer)
+//@  && coversSpec(string(ds[i].command), string(i == 0 ? t.command : ds[i-1].command))
+//@
+//@ pure func chainOK(t *Token, ds []*delegation.Token) bool =
+//@     len(ds) >= 1
+//@  && (forall i int :: 0 <= i && i < len(ds) ==> linkOK(t, ds, i))
+//@  && ds[len(ds)-1].issuer == ds[len(ds)-1].subject
+//@
+//@ func (*Token).verifyProofs
+//@   requires t != nil
+//@   requires len(delegations) == len(t.proof)
+//@   requires forall i int :: 0 <= i && i < len(delegations) ==> delegations[i] != nil
+//@   ensures [C01,C02] sound: result == nil ==> chainOK(t, delegations)
+//@   ensures [C05] complete: chainOK(t, delegations) ==> result == nil
+//@   assigns [C20] nothing
+//@   loop 0: invariant 0 <= k && k <= len(t.proof)
+//@           invariant forall i int :: 0 <= i && i < k ==> linkOK(t, delegations, i)
+//@           invariant cmd == (k == 0 ? t.command : delegations[k-1].command)
+//@           invariant iss == (k == 0 ? t.issuer : delegations[k-1].issuer)
+//@           decreases len(t.proof) - k
